@@ -207,10 +207,10 @@ async def history(rnd, acc, clock, cid):
             if ep.connection_state <= ConnectionState.DISCONNECTED_BROKEN_CONN:
                 break
             a = rnd.choice(["send", "send", "send_uni", "send_grp", "send_big", "send_refused", "testreq", "app_in", "gap", "resend_req", "seqreset", "hb_bad",
-                            "advance", "advance", "logout_in", "toolow", "disconnect_logout", "send_hb", "send_decl"])
+                            "advance", "advance", "logout_in", "toolow", "disconnect_logout", "send_hb", "send_decl", "send_dupn"])
             trace.append(a)
             cnt += 1
-            if a in ("send", "send_uni", "send_grp", "send_hb", "send_decl", "send_big", "send_refused"):
+            if a in ("send", "send_uni", "send_grp", "send_hb", "send_decl", "send_big", "send_refused", "send_dupn"):
                 if a == "send_big":
                     # a frame larger than any buffer size a sender might slice by: every write() must still be whole frames
                     m = FIXMessage("B", {148: f"big{cnt}", 58: "x" * rnd.choice([4090, 4200, 9000, 20000, 66000, 140000])})
@@ -225,6 +225,11 @@ async def history(rnd, acc, clock, cid):
                     m = FIXMessage("D", {11: f"decl{cnt}"})
                 elif a == "send_hb":
                     m = FIXMessage("0")
+                elif a == "send_dupn":
+                    # an original message that spells out PossDupFlag=N (and, some do, an OrigSendingTime): journaled with those fields;
+                    # a later replay has to replace them, so its frame is not "the journaled one plus two fields"
+                    m = FIXMessage("D", {11: f"n{cnt}", 58: "w" * rnd.randrange(1, 12), **rnd.choice([{43: "N"}, {43: "N", 122: "20230102-03:04:05"}, {97: "Y", 43: "N"}])})
+                    acc.add("originals_sent_with_an_explicit_possdupflag_n")
                 else:
                     m = FIXMessage("D", {11: f"g{cnt}"})
                     m.set_group(453, [{448: "p1", 447: "D", 452: 1}, {448: "p2", 802: [{523: "s", 803: 1}]}])
